@@ -53,8 +53,13 @@ def record(tw, rng, n_chains, stats):
         tr.append({"ev": "New", "M1": M1, "M2": M2, "close": close, "a": comp_state(a), "b": comp_state(b)})
         for _ in range(rng.randrange(2, 6)):
             to = rng.choice(["weight", "molar"])
-            a = a.to_molar(mix) if to == "molar" else a.to_weight(mix)
-            b = b.to_molar(mix) if to == "molar" else b.to_weight(mix)
+            try:
+                a2 = a.to_molar(mix) if to == "molar" else a.to_weight(mix)
+                b2 = b.to_molar(mix) if to == "molar" else b.to_weight(mix)
+            except Exception as e:  # noqa: BLE001   a valid composition must convert: reported, the chain ends here
+                tr.append({"ev": "ConvRaised", "to": to, "exc": type(e).__name__, "a": comp_state(a), "b": comp_state(b)})
+                break
+            a, b = a2, b2
             tr.append({"ev": "Conv", "to": to, "a": comp_state(a), "b": comp_state(b)})
         stats["chains"] = stats.get("chains", 0) + 1
         if not close and 1e-9 < pa < pb < 1 - 1e-9:
